@@ -18,12 +18,13 @@ class validate_score_vector:
         return vec_ok_prefix(score_vector, i + 1, len(score_vector))
 
 
-@contract("utils.py", "tiebreak_set", props=("C10",))
+@contract("utils.py", "tiebreak_set", props=("C10",), assumed=True)
 class tiebreak_set:
-    """used as a callee contract by elect_cands_from_set_ranking; its own body is verified separately (C10)"""
+    """ASSUMED callee contract of elect_cands_from_set_ranking (its body uses sorted / dict-of-lists / random.sample and
+    is outside the verifier's subset); checked only by the bounded tiers of C10/C17"""
     params = dict(r_set=CSet, profile=Opt(Profile), tiebreak=Str)
     returns = Seq(CSet)
-    bounded_only = True
+    trusted = ("assumed contract: tiebreak_set returns a strict order (sequence of singletons) of exactly the given set; ValueError iff unknown code or missing profile",)
 
     def raises_ValueError(r_set, profile, tiebreak):
         return tiebreak != "random" and (profile is None or (tiebreak != "first_place" and tiebreak != "borda"))
